@@ -103,13 +103,19 @@ def process_graphql_query(
         return result
 
     if isinstance(document, str):
+        syntax_error = None  # type: Optional[GraphQLSyntaxError]
         instrumentation.on_parsing_start()
         try:
             ast = parse(document)
         except GraphQLSyntaxError as err:
-            return _abort(errors=[err])
+            syntax_error = err
         finally:
             instrumentation.on_parsing_end()
+
+        # Abort after the parsing stage has been closed so that hooks stay
+        # properly nested (on_query_end must be the very last hook).
+        if syntax_error is not None:
+            return _abort(errors=[syntax_error])
     else:
         ast = document
 
